@@ -329,3 +329,24 @@ func rpoOrder(fn *ssa.Function) map[*ssa.BasicBlock]int {
 	}
 	return out
 }
+
+// innermostLoopHeader: the header of the innermost natural loop containing b (nil when b is in no loop).
+func innermostLoopHeader(b *ssa.BasicBlock) *ssa.BasicBlock {
+	fn := b.Parent()
+	var best *ssa.BasicBlock
+	for _, h := range fn.Blocks {
+		isHdr := false
+		for _, p := range h.Preds {
+			if h.Dominates(p) {
+				isHdr = true
+			}
+		}
+		if !isHdr || !h.Dominates(b) || !blockReach(b, nil)[h] {
+			continue
+		}
+		if best == nil || best.Dominates(h) {
+			best = h
+		}
+	}
+	return best
+}
